@@ -60,7 +60,8 @@ def c14_jobs(tier):
 
 def c02_jobs(tier):
     jobs = [sim("c02-seq", "c02", require_counters=["effective_acks", "stale_unknown_repeated_acks", "deadline_crossings_after_ack"]),
-            conc("c02-conc", "c03", params={"n": 1500 if tier == "quick" else 20000}, require_counters=["certainly_effective_acks"])]
+            conc("c02-conc", "c03", params={"n": 1500 if tier == "quick" else 20000}, require_counters=["certainly_effective_acks"]),
+            sim("c02-stream-mixed", "c05", require_nontrivial=False)]
     if tier == "thorough":
         jobs.append(miri("c02-miri", "c02", 48))
         jobs.append(conc("c02-conc-h2", "c03", transport="h2", params={"n": 4000}))
